@@ -25,6 +25,9 @@ fn main() {
     let mut trace = false;
     let mut case_seed: Option<u64> = None;
     let mut skip_exhaustive = false;
+    let mut exhaustive_only = false;
+    let mut accepted_out: Option<String> = None;
+    let mut seeds_file: Option<String> = None;
     let mut i = 2;
     while i < args.len() {
         let a = args[i].as_str();
@@ -42,6 +45,12 @@ fn main() {
             "--thorough" => thorough = true,
             "--trace" => trace = true,
             "--no-exhaustive" => skip_exhaustive = true,
+            "--exhaustive-only" => {
+                cases = 0;
+                exhaustive_only = true;
+            }
+            "--accepted-out" => accepted_out = Some(val()),
+            "--seeds-file" => seeds_file = Some(val()),
             "--case-seed" => case_seed = Some(val().parse().unwrap()),
             _ => {
                 eprintln!("unknown arg {a}");
@@ -100,6 +109,7 @@ fn main() {
     let t0 = Instant::now();
     if let (Some(ex), false) = (m.exhaustive, skip_exhaustive) {
         CUR_IDX.store(u64::MAX - 1, Ordering::Relaxed);
+        st.case_seed = u64::MAX;
         let r = catch(|| ex(shard, nshards, &mut st));
         if let Err(p) = r {
             if p.loc.starts_with("clap") {
@@ -111,8 +121,18 @@ fn main() {
     }
     let base = mix(seed, hash_str(&prop));
     let mut n = 0u64;
+    // release-build replay tier: run exactly the case seeds a monitor build accepted
+    let replay_seeds: Option<Vec<u64>> = seeds_file.as_ref().map(|f| {
+        std::fs::read_to_string(f).unwrap_or_default().lines().filter_map(|l| l.trim().parse().ok()).collect()
+    });
     while n < cases && t0.elapsed().as_millis() < ms {
-        let cs = mix(base, (shard as u64) << 40 | n);
+        let cs = match &replay_seeds {
+            Some(v) => match v.get(n as usize) {
+                Some(s) => *s,
+                None => break,
+            },
+            None => mix(base, (shard as u64) << 40 | n),
+        };
         CUR_CASE.store(cs, Ordering::Relaxed);
         CUR_IDX.store(n, Ordering::Relaxed);
         if trace {
@@ -130,9 +150,16 @@ fn main() {
         n += 1;
     }
     CUR_IDX.store(u64::MAX, Ordering::Relaxed);
+    if let Some(f) = accepted_out {
+        let body: String = st.accepted_seeds.iter().map(|s| format!("{}\n", s)).collect();
+        let _ = std::fs::write(f, body);
+    }
     let js = st.to_json(&prop, shard, n, t0.elapsed().as_millis());
     match out {
         Some(p) => std::fs::write(p, js).unwrap(),
         None => println!("{}", js),
+    }
+    if exhaustive_only && !st.violations.is_empty() {
+        std::process::exit(1);
     }
 }
